@@ -509,8 +509,62 @@ where
     run.add_class(&format!("{}: ... of which with a different internal representation", H::NAME), other_images);
 }
 
+/// "any difference in the seed changes the subsequent outputs": seeds of every length 0..=17 over three element
+/// streams, each also extended by ZERO and by ONE (the values a padding rule could confuse with "nothing") - all
+/// coins must start differently.
+fn seed_sensitivity<H: CoinSpec>(run: &Arc<Run>)
+where
+    H::Digest: 'static,
+{
+    let mk = |v: u128| -> H::BaseField { H::BaseField::from(((v % H::P) as u64 & 0xffff_ffff) as u32) };
+    let mut seeds: Vec<Vec<H::BaseField>> = vec![];
+    for stream in 0..3u128 {
+        for len in 0..=17usize {
+            let base: Vec<H::BaseField> = (0..len).map(|i| match stream {
+                0 => mk(i as u128 + 1),
+                1 => H::BaseField::ZERO,
+                _ => H::BaseField::ONE,
+            }).collect();
+            for ext in [None, Some(H::BaseField::ZERO), Some(H::BaseField::ONE)] {
+                let mut s = base.clone();
+                if let Some(e) = ext {
+                    s.push(e);
+                }
+                if !seeds.contains(&s) {
+                    seeds.push(s);
+                }
+            }
+        }
+    }
+    let mut seen: HashMap<Vec<u8>, usize> = HashMap::new();
+    let mut cases = 0u64;
+    for (i, s) in seeds.iter().enumerate() {
+        cases += 1;
+        let obs = pan::catch(|| {
+            let mut coin = DefaultRandomCoin::<H>::new(s);
+            let lz = coin.check_leading_zeros(3);
+            let d = H::draw_real(&mut coin, 1).unwrap_or_default();
+            let ints = coin.draw_integers(16, 256, 1).unwrap_or_default();
+            let mut o = d;
+            o.push(lz as u8);
+            o.extend(ints.iter().map(|x| *x as u8));
+            o
+        });
+        match obs {
+            Ok(o) => {
+                if let Some(j) = seen.insert(o, i) {
+                    run.add_violation(&format!("coin.{}.seed_sensitivity", H::NAME), cases, &format!("{}: two different seeds lead to the same outputs", H::NAME), json!({"seed_1": format!("{:?}", seeds[j].iter().map(|e| e.to_string()).collect::<Vec<_>>()), "seed_2": format!("{:?}", s.iter().map(|e| e.to_string()).collect::<Vec<_>>())}));
+                }
+            },
+            Err(p) => run.add_violation(&format!("coin.{}.seed_sensitivity", H::NAME), cases, &format!("{}: coin panics ({})", H::NAME, p.class()), json!({"seed_len": s.len()})),
+        }
+    }
+    run.add_counts(cases, cases, 0, 0, 0);
+    run.add_class("seeds of every length 0..=18 (three streams, extended by ZERO / ONE) checked for pairwise different outputs", cases);
+}
+
 pub fn run(run: &Arc<Run>) {
-    run.rule("explicit-state BFS over coin histories {new(4 seeds), reseed(2 digests), draw base/quadratic/cubic, draw_integers(k,2^m,nonce) for 7 (k,m,nonce) triples with k in {1,2,255} and m in {1,8,32}, check_leading_zeros(3 values)} for all six hashers; states keyed by the reference coin's (seed, counter); every transition executed on the real coin and on the reference coin and compared (a trace validated against the implementation); each state additionally probed for its next outputs, which must be a function of, and injective in, the key; representation independence: seeds re-derived through field arithmetic (equal as values, other internal images for the 62-bit field) give identical outputs; nonce sensitivity: from 12 coin states per hasher every nonce of a boundary alphabet (multiples of the field modulus +-2, 2^b and 2^b-1 for every b, the extremes; about 150 values) must lead to pairwise different (27 integers, next draw)");
+    run.rule("explicit-state BFS over coin histories {new(4 seeds), reseed(2 digests), draw base/quadratic/cubic, draw_integers(k,2^m,nonce) for 7 (k,m,nonce) triples with k in {1,2,255} and m in {1,8,32}, check_leading_zeros(3 values)} for all six hashers; states keyed by the reference coin's (seed, counter); every transition executed on the real coin and on the reference coin and compared (a trace validated against the implementation); each state additionally probed for its next outputs, which must be a function of, and injective in, the key; seed sensitivity: seeds of every length 0..=18 over three element streams, extended by ZERO / ONE, give pairwise different outputs; representation independence: seeds re-derived through field arithmetic (equal as values, other internal images for the 62-bit field) give identical outputs; nonce sensitivity: from 12 coin states per hasher every nonce of a boundary alphabet (multiples of the field modulus +-2, 2^b and 2^b-1 for every b, the extremes; about 150 values) must lead to pairwise different (27 integers, next draw)");
     run.assume("hash_elements / merge / merge_with_int / Digest::as_bytes of each hasher are correct (C11)");
     run.assume("draw_integers precondition k < 2^m is respected (documented assertion)");
     let t = run.tier();
@@ -520,6 +574,12 @@ pub fn run(run: &Arc<Run>) {
     explore::<hashers::Rp64_256>(run, t.pick(3, 4));
     explore::<hashers::Rp62_248>(run, t.pick(3, 4));
     explore::<hashers::RpJive64_256>(run, t.pick(3, 4));
+    seed_sensitivity::<hashers::Blake3_256<B64>>(run);
+    seed_sensitivity::<hashers::Blake3_192<B62>>(run);
+    seed_sensitivity::<hashers::Sha3_256<B128>>(run);
+    seed_sensitivity::<hashers::Rp64_256>(run);
+    seed_sensitivity::<hashers::Rp62_248>(run);
+    seed_sensitivity::<hashers::RpJive64_256>(run);
     representation_independence::<hashers::Blake3_256<B64>>(run);
     representation_independence::<hashers::Blake3_192<B62>>(run);
     representation_independence::<hashers::Sha3_256<B128>>(run);
